@@ -29,6 +29,44 @@ CLAIMS = {
         "Modelled: str.startswith/lstrip/index/set semantics; numpy fancy indexing.",
         "DESIGN.md §5 C10",
     ),
+    "C02": (
+        "Byte-level Lean models of writer and reader for XYZ (incl. user-defined fixed-point atom columns), SDF V2000 and PDB, "
+        "with field widths/precisions/slices as parameters read from the source each run. Theorems for ALL objects of an explicit "
+        "decidable domain and all layouts satisfying the stated side conditions: load (dump o) = ok (norm o) for XYZ (full) and SDF "
+        "(full: every object the V2000 columns hold, touching fields included); PDB: the ATOM record for every atom whose fields "
+        "fit their columns, and whole files without CONECT records (PARTIAL: the CONECT chunk loop is modelled and executed in the "
+        "correspondence but its round trip is not proved); written_not_refused; domains inhabited at the column boundaries; "
+        "generated obligations: writer columns = reader slices, writer/reader source shape, all 118 elements round-trip. "
+        "Byte-exact correspondence of the real dump_one/load_one with the models. MOL2, Cube, FCIDUMP, POSCAR: direct search only "
+        "(load_one(dump_one(x)) vs x attribute by attribute); FCHK/Molden/Molekel/WFN/WFX/QCSchema: not covered by this check.",
+        "Lean 4 proof (list induction, decide +kernel over generated layouts) + byte-exact model-vs-code correspondence + direct search",
+        "Modelled: str.split/strip/slices, int()/float() on plain decimals, format specs d/f/s. Quantised reals (DESIGN §4.1). "
+        "Partial: PDB CONECT loop; search-only formats are not proved.",
+        "DESIGN.md §5 C02/C03/C15",
+    ),
+    "C03": (
+        "Independent renderers of the published layouts in Lean: free-format XYZ with arbitrary blank runs and four element "
+        "spellings (theorem for every well-formed file), CTfile V2000 column table for SDF (theorem for every model the columns hold), "
+        "wwPDB v3.3 ATOM/CONECT column tables (reader slices = spec columns by computation; ATOM record theorem; whole files without "
+        "CONECT; CONECT loop not proved = PARTIAL). Spec files rendered by the model are read by the real load_one and compared "
+        "with the model and with the Lean reader; an independent Python spec writer cross-checks the renderer byte for byte. "
+        "GRO and MOL2: spec-following Python writers -> load_one (direct search only).",
+        "Lean 4 proof + decide +kernel over generated slices vs hand-written spec tables + correspondence + direct search",
+        "Hand-written spec tables are trusted (cross-checked against an independent Python writer). Log parsers and the other 19 "
+        "format modules are not covered by this check.",
+        "DESIGN.md §5 C02/C03/C15",
+    ),
+    "C15": (
+        "For XYZ and SDF (full) and PDB without CONECT (partial): norm is idempotent and keeps the domain, hence the object reloaded "
+        "after the first save reloads as itself and generation 2 and 3 files coincide (theorems over the same models as C02). "
+        "Lock-step correspondence through two generations (bytes and objects). Direct search: three save/reload cycles on the real "
+        "code with bit-exact object snapshots and byte comparison for XYZ, SDF, PDB, MOL2, Cube, FCIDUMP, POSCAR, and every corpus "
+        "file of iodata/test/data written to each of the 13 read/write formats that accepts it.",
+        "Lean 4 proof + two-generation correspondence + direct search (3 cycles, corpus conversions)",
+        "Theorems speak about quantised objects; bit-identity of floats is observed on the real code only. Wavefunction formats: "
+        "search only.",
+        "DESIGN.md §5 C02/C03/C15",
+    ),
 }
 
 NOT_YET = {}
